@@ -54,16 +54,18 @@ std::unique_ptr<NodeResult> ForLoopNode::evaluate(PSC::Context &ctx) {
         stepValue = 1;
     }
 
-    PSC::Integer &iteratorValue = iterator->get<PSC::Integer>();
+    // the body may replace the iterator's value object (e.g. by assigning the record it is a field of),
+    // so the value is looked up again for every use
+    auto iteratorValue = [iterator]() -> PSC::Integer& { return iterator->get<PSC::Integer>(); };
 
     PSC::int_t startValue = startRes->get<PSC::Integer>();
     PSC::int_t stopValue = stopRes->get<PSC::Integer>();
 
     bool stepNegative = stepValue < 0;
 
-    for (iteratorValue = startValue;
-        (stepNegative && iteratorValue.value >= stopValue) || (!stepNegative && iteratorValue.value <= stopValue);
-        iteratorValue.value += stepValue
+    for (iteratorValue() = startValue;
+        (stepNegative && iteratorValue().value >= stopValue) || (!stepNegative && iteratorValue().value <= stopValue);
+        iteratorValue().value += stepValue
     ) {
 #ifdef PSEUDOENGINE2_VERIF
         PE2Verif::tick(token, ctx);
